@@ -79,18 +79,18 @@ def check_core_family(prop, tier):
         extra_viol = extra_viol + r["violations"]
         extra_cov.update({"builder_histories_executed": r["n"], "builder_builds_read_back": r["nbuilds"],
                           "builder_model_states": r["states"]})
-    if prop in ("C05", "C06"):
+    if prop in ("C01", "C02", "C05", "C06"):
         # set_footer / set_implicit_assertion histories with two values each and the empty string, on both
         # builders (the token is bound to the pair set last) and on both parsers (reconfigured between parses)
         for fam in ("c05b", "c05g"):
             conf = dict(fam=fam, rnd=(0, 0), nonce=(0, 0), whys=(prop,), deep=True, allprotos=True)
-            r = builder_pipeline(prop + fam[-1], tier, conf)
+            r = builder_pipeline(prop + fam[-1], tier, conf, purpose={"C01": "local", "C02": "public"}.get(prop))
             for v in r["violations"]:
                 v["props"] = [prop]
             extra_viol = extra_viol + r["violations"]
             extra_cov["builder_histories_executed"] = extra_cov.get("builder_histories_executed", 0) + r["n"]
             extra_cov["builder_builds_read_back"] = extra_cov.get("builder_builds_read_back", 0) + r["nbuilds"]
-        for fam in ("c05", "c05p"):
+        for fam in (("c05", "c05p") if prop in ("C05", "C06") else ()):
             r = parser_pipeline(prop + fam[3:], tier, fam, (prop,), need=('"res":"ok"', '"res":"pre"'))
             for v in r["violations"]:
                 v["props"] = [prop]
